@@ -127,17 +127,24 @@ func (c *wsConnection) removeSub(id string) {
 
 	if isEmpty {
 		if c.idleTimeout > 0 {
-			time.AfterFunc(c.idleTimeout, func() {
-				c.subsMu.RLock()
-				stillEmpty := len(c.subs) == 0
-				c.subsMu.RUnlock()
-				if stillEmpty {
-					c.closeConn()
-				}
-			})
+			time.AfterFunc(c.idleTimeout, c.closeIfIdle)
 		} else {
-			c.closeConn()
+			c.closeIfIdle()
 		}
+	}
+}
+
+// closeIfIdle shuts the connection down if it has no subscriptions. The emptiness check and the
+// transition to closed are one step under subsMu, the lock subscribe registers under: a new
+// subscriber either finds the connection closed (and gets a fresh one) or keeps it open. Checking
+// first and closing afterwards closed the connection under a subscriber that registered in between.
+func (c *wsConnection) closeIfIdle() {
+	c.subsMu.Lock()
+	idle := len(c.subs) == 0 && c.closed.CompareAndSwap(false, true)
+	c.subsMu.Unlock()
+
+	if idle {
+		c.teardown(common.ErrConnectionClosed)
 	}
 }
 
@@ -216,6 +223,11 @@ func (c *wsConnection) shutdown(err error) {
 		return
 	}
 
+	c.teardown(err)
+}
+
+// teardown releases the connection after closed has been set.
+func (c *wsConnection) teardown(err error) {
 	c.log.Debug("wsConnection.shutdown",
 		abstractlogger.Error(err),
 	)
